@@ -284,11 +284,21 @@ where
         cell_key: CellKey,
         vertex: Vertex<K::Scalar, U, D>,
     ) -> Result<FlipInfo<D>, FlipError> {
-        self.tri.flip_k1_insert(cell_key, vertex)
+        let result = self.tri.flip_k1_insert(cell_key, vertex);
+        if result.is_ok() {
+            // The Edit API bypasses `insert`, so the duplicate-detection grid no longer mirrors
+            // the vertex set: drop it (it is re-seeded lazily), as `as_triangulation_mut` does.
+            self.invalidate_vertex_caches();
+        }
+        result
     }
 
     fn flip_k1_remove(&mut self, vertex_key: VertexKey) -> Result<FlipInfo<D>, FlipError> {
-        self.tri.flip_k1_remove(vertex_key)
+        let result = self.tri.flip_k1_remove(vertex_key);
+        if result.is_ok() {
+            self.invalidate_vertex_caches();
+        }
+        result
     }
 
     fn flip_k2(&mut self, facet: FacetHandle) -> Result<FlipInfo<D>, FlipError> {
